@@ -42,12 +42,25 @@ pub fn run(env: &Env, run: &Run) -> (Stats, Coverage) {
         for l in [vec![0x61, x, 0x62], vec![x], vec![0xE9, x, 0xE9], vec![0x20, x, 0x20], vec![0x61, 0x20, x], vec![x, 0x20, 0x61], vec![0x65E5, x, x, 0x10400]] {
             visit(env, &from_cps(&l), st);
         }
+        for a in alias_chars(c) {
+            visit(env, &from_cps(&[0x61, x, a as u32, 0x62]), st);
+        }
     }));
+
+    // structural families: pumped runs a^k b / b a^k / a^k b a (k around 8, 16, 32, 64 and, for a
+    // few symbols, 128..1025) and every ASCII character at every offset of 7..33-byte ASCII strings
+    let fam = {
+        let mut v = pumped(&sigma, &PUMP_LENGTHS);
+        v.extend(pumped(&sigma[..sigma.len().min(6)], &PUMP_LENGTHS_LONG));
+        v.extend(ascii_blocks());
+        v
+    };
+    st.merge(run_family(&fam, |s, st| visit(env, s, st)));
     let zs: Vec<String> = (0..0x110000u32).filter_map(char::from_u32).filter(|c| is_zs(&env.ud16, *c)).map(|c| format!("U+{:04X}", c as u32)).collect();
     st.sample(json!({"rule": "Nickname additional mapping", "input": ["U+00E9", " ", " ", "b", "U+3000"], "expected": "U+00E9 ' ' b"}));
     st.sample(json!({"rule": "OpaqueString additional mapping", "input": [" ", "U+00A0", "a", " "], "expected": "' ' ' ' a ' ' (only the non-ASCII space is replaced; nothing is trimmed)"}));
     let cov = Coverage {
-        rule: format!("every string of length <= {} over {{U+0020, Zs of 2 and 3 bytes, letters of 1-4 bytes}} + every scalar value in 7 templates through additional_mapping_rule of Nickname and OpaqueString; oracle = map Zs (gc of the profile crate's UnicodeData) to U+0020, split on U+0020, drop empty tokens, join with one U+0020 (Nickname) / map non-ASCII Zs only (OpaqueString); idempotence on the output; non-trivial = a space needing action stands behind a multi-byte character", n),
+        rule: format!("every string of length <= {} over {{U+0020, Zs of 2 and 3 bytes, letters of 1-4 bytes}} + pumped runs and ASCII block strings + every scalar value in 7 templates and next to each of its bit-16..20 aliases through additional_mapping_rule of Nickname and OpaqueString; oracle = map Zs (gc of the profile crate's UnicodeData) to U+0020, split on U+0020, drop empty tokens, join with one U+0020 (Nickname) / map non-ASCII Zs only (OpaqueString); idempotence on the output; non-trivial = a space needing action stands behind a multi-byte character", n),
         alphabet: json!(sigma.iter().map(|c| format!("U+{:04X}", *c as u32)).collect::<Vec<_>>()),
         bound_completed: format!("length <= {} ({} strings) x 2 rules; sweep 1,112,064 x 7 templates x 2", n, tree_size(sigma.len(), n)),
         exhaustive: false,
